@@ -23,7 +23,7 @@ add("C20", "exploration",
 add("C04", "exploration",
     "differential runtime monitor: real chain code vs independent reference model (refchain) on generated single-rule violators and valid neighbours; tip + full UTXO dump compared after every delivery",
     "Held on the block histories observed: regtest-like chains (mainnet and testnet rule sets, plain and compressed UTXO records, early and late activation heights) grown block by block; at each height "
-    "blocks violating exactly one connection rule (missing/duplicate/double-spent inputs, immature coinbase 99 vs 100, amount ranges, fee underflow, coinbase overclaim, sigop cost 80000 vs 80004, BIP68, failing script, BIP30) and their valid neighbours are offered; a refused block must leave tip and UTXO set unchanged.",
+    "blocks violating exactly one connection rule (missing/duplicate/double-spent inputs, immature coinbase 99 vs 100, amount ranges, fee underflow, coinbase overclaim, sigop cost 80000 vs 80004, BIP68, failing script, BIP30; amounts incl. d x 10^e and k x 10 BTC spent to the last satoshi / one more) and their valid neighbours are offered; a refused block must leave tip and UTXO set unchanged.",
     "Oracle = /verif/ref/refchain (written from the consensus rules, no shared code). Script validity of generated inputs is ground truth by construction, cross-checked (all invalid ones, every third valid one) by the independent interpreter /verif/ref/refscript. UTXO dump is read through gocoin's own record decoder (tied by C10).",
     "DESIGN.md §3 C04")
 add("C05", "exploration",
@@ -36,7 +36,7 @@ add("C06", "exploration",
     "differential runtime monitor: random block trees delivered in random parent-first orders to the real node and to the reference fork-choice/UTXO model; tip + full UTXO dump compared after every delivery",
     "Held on the delivery histories observed: thousands of random block trees (forks from the tip and from below it, depth up to ~16, equal-work ties, branches invalid only at connect time at random positions with descendants, "
     "check-invalid blocks, children offered before parents, redeliveries, Idle/HurryUp between deliveries, plain/compressed records, mainnet/testnet rule sets); reference UTXO is recomputed by replay on every reorganisation.",
-    "Oracle = /verif/ref/refchain (most cumulative work = sum 2^256/(target+1), first seen wins ties, invalid-at-connect branches excluded with descendants). All blocks carry the same difficulty, so heavier-but-shorter branches are not exercised.",
+    "Oracle = /verif/ref/refchain (most cumulative work = sum 2^256/(target+1), first seen wins ties, invalid-at-connect branches excluded with descendants; work kept with 64 fractional bits because the simulated targets are far easier than any real one). Per-block work differs only in the testnet-work histories (behind one retarget: minimum-difficulty blocks carry 1/4 of a real block's work; random trees plus duels of a light against a heavy branch, shorter-but-heavier and longer-but-lighter both counted in the evidence); elsewhere all blocks carry the same difficulty.",
     "DESIGN.md §3 C06")
 
 add("C07", "fault_enumeration",
@@ -80,8 +80,8 @@ add("C08", "exploration",
 add("C17", "exploration",
     "invariant recomputation at quiescent points: the client's balance index, wired as client/wallet/onoff.go does, is compared with the projection of the reference UTXO set for every address after every block delivery / reorganisation step / index (re)build",
     "Held on the histories observed: block histories with connects, disconnects and reorganisations paying to and spending from a small pool of P2PKH, P2SH, P2WPKH, P2WSH (and receive-only P2TR) addresses plus non-indexed scripts; addresses with 0/1/few/many outputs with UseMapCnt=4 (list->map switch), "
-    "several outputs of one transaction to one address, values at MinValue-1/MinValue/MinValue+1, index built from empty and from populated sets, Disable/re-enable in between; GetAllUnspent (set incl. height and coinbase flag, and sum) and the Browse (count,value) totals equal the projection.",
-    "The projection comes from the reference UTXO set, which the same run ties to the node's UTXO dump after every delivery. Address-hash collisions (64-bit siphash) are not exercised.",
+    "several outputs of one transaction to one address, values at MinValue-1/MinValue/MinValue+1, index built from empty and from populated sets, Disable/re-enable in between, MinValue changed at run time, restarts with the index kept on disk (SaveBalances/LoadBalances, also with a stale dump); GetAllUnspent (set incl. height and coinbase flag, and sum) and the Browse (count,value) totals equal the projection.",
+    "The projection comes from the reference UTXO set, which the same run ties to the node's UTXO dump after every delivery. Addresses colliding in 32 bits of the 64-bit index key are exercised, full 64-bit collisions are not. A restart is simulated in-process (index emptied, nothing remembered, configuration applied) rather than by a new process.",
     "DESIGN.md §3 C17")
 
 add("C14", "exploration",
@@ -97,7 +97,7 @@ add("C15", "exploration",
     "DESIGN.md §3 C15")
 
 add("C02", "exploration",
-    "differential runtime monitor: legacy / BIP143 / BIP341-342 digests of the library vs an independent reference (refsighash), sequential and concurrent (-race) cache schedules on one Tx object, end-to-end spends signed by an independent signer, forged signatures over 'no digest' cases",
+    "differential runtime monitor: legacy / BIP143 / BIP341-342 digests of the library vs an independent reference (refsighash), sequential and concurrent (-race) cache schedules on one Tx object and on three at once, end-to-end spends (also from six goroutines at once under -race) signed by an independent signer, forged signatures over 'no digest' cases",
     "Held on the cases observed: ~60k single digests over random transactions, indices (incl. SIGHASH_SINGLE out of range), hash types 0..255 / 32-bit, script codes with code separators, embedded signatures and malformed tails, annex/leaf/codesep positions; "
     "1000 permuted 50-request schedules (200 of them from 8 goroutines in a -race build) all equal to the cache-free reference; ~2.9k end-to-end spends; ~470 forgeries over undefined taproot digests all rejected.",
     "Oracle = /verif/ref/refsighash calibrated on sighash.json (500), tx_valid.json digests and published signatures, BIP341 wallet vectors (key path); taproot script path/annex are calibrated by hand-derived checks only.",
